@@ -8,7 +8,8 @@ Require Import Grist.Model.MetaCascade Grist.Proofs.MetaCascade_base Grist.Proof
   Grist.Proofs.MetaCascade_add Grist.Proofs.MetaCascade_add2 Grist.Proofs.MetaCascade_add3
   Grist.Proofs.MetaCascade_add4 Grist.Proofs.MetaCascade_add5 Grist.Proofs.MetaCascade_add6
   Grist.Proofs.MetaCascade_add7 Grist.Proofs.MetaCascade_regroup Grist.Proofs.MetaCascade_regroup2
-  Grist.Proofs.MetaCascade_conv
+  Grist.Proofs.MetaCascade_conv Grist.Proofs.MetaCascade_clear Grist.Proofs.MetaCascade_sec2
+  Grist.Proofs.MetaCascade_reid Grist.Proofs.MetaCascade_sis
   Grist.Proofs.MetaCascade_upd Grist.Proofs.MetaCascade_upd2 Grist.Proofs.MetaCascade_upd3.
 Open Scope Z_scope.
 
@@ -43,10 +44,15 @@ Proof.
   - apply (set_rules_inv [] _ _ _ _ _ HI H).
   - apply (set_custom_inv [] _ _ _ _ HI H).
   - apply (rename_table_inv _ _ _ _ HI H).
-  - apply (create_summary_inv _ _ _ _ _ _ _ _ HI H).
+  - apply (create_summary_inv _ _ _ _ _ _ _ _ _ HI H).
   - apply (apply_regroup_inv _ _ _ HI H).
   - apply (remove_columns_regroup_inv _ _ _ _ HI H).
   - apply (set_visible_inv [] _ _ _ _ HI H).
+  - apply (modify_type_inv [] _ _ _ _ _ _ _ HI H).
+  - apply (set_display_sisters_inv [] _ _ _ _ _ _ _ HI H).
+  - apply (reident_inv [] _ _ _ _ HI H).
+  - apply (create_section_shown_inv _ _ _ _ _ HI H).
+  - apply (create_summary_existing_inv _ _ _ _ _ _ _ _ HI H).
   - inversion H; subst. exact HI.
   - discriminate.
 Qed.
